@@ -171,6 +171,21 @@ impl Connection {
     }
 }
 
+#[cfg(feature = "verif")]
+thread_local! {
+    /// Verification hook: which receiver of the `select!` in `poll_next` yielded, per stream.
+    pub(crate) static VERIF_POPS: std::cell::RefCell<Vec<(usize, bool)>> =
+        const { std::cell::RefCell::new(Vec::new()) };
+}
+
+/// Verification hook: record that a notification was taken from the sync (`true`) or async queue.
+#[cfg(feature = "verif")]
+fn verif_note_pop(stream_id: usize, sync: bool, some: bool) {
+    if some {
+        VERIF_POPS.with(|log| log.borrow_mut().push((stream_id, sync)));
+    }
+}
+
 /// Connection events.
 pub enum ConnectionEvent {
     /// Close connection.
@@ -215,8 +230,16 @@ impl Stream for Connection {
                 None => {
                     let future = async {
                         tokio::select! {
-                            notification = this.async_rx.recv() => notification,
-                            notification = this.sync_rx.recv() => notification,
+                            notification = this.async_rx.recv() => {
+                                #[cfg(feature = "verif")]
+                                verif_note_pop(this.stream_id, false, notification.is_some());
+                                notification
+                            },
+                            notification = this.sync_rx.recv() => {
+                                #[cfg(feature = "verif")]
+                                verif_note_pop(this.stream_id, true, notification.is_some());
+                                notification
+                            },
                         }
                     };
                     futures::pin_mut!(future);
